@@ -102,8 +102,10 @@ def run_uniform(case, res):
     d = rng.choice([1, 2, 2, 3])
     while True:
         lv = [rng.randint(1, {1: 8, 2: 5, 3: 3}[d]) for _ in range(d)]
+        if d == 2 and rng.random() < 0.25:
+            lv = rng.choice([[4, 5], [5, 4], [3, 5], [5, 3], [6, 2], [2, 6]])
         N = int(np.prod([2 ** l - 1 for l in lv]))
-        if N <= 300:
+        if N <= 500:
             break
     xs = demodel.uniform_stripes(lv)
     X, labels, style = gen_data(rng, d, xs)
@@ -112,6 +114,19 @@ def run_uniform(case, res):
     cfg = {"path": "uniform", "d": d, "levels": lv, "N": N, "M": len(X), "data": style, "lambda": lam, "masslumping": ml, "labels": labels is not None}
     res.sample = {"config": cfg}
     op = make_op(X, labels, d, masslumping=ml, lambd=lam)
+    if d >= 2 and rng.random() < 0.5:
+        # the combination technique evaluates many level vectors on ONE operation object: a permuted level vector
+        # (same number of points, different layout) is evaluated first
+        plv = list(lv)
+        rng.shuffle(plv)
+        if plv == list(lv):
+            plv = plv[1:] + plv[:1]
+        op.grid.numPoints = 2 ** np.asarray(plv, dtype=int) - 1
+        op.calculate_B(op.data, plv)
+        if rng.random() < 0.5:
+            op.solve_density_estimation(plv)
+        res.count("history_permuted_levelvector")
+        cfg["history"] = plv
     op.grid.numPoints = 2 ** np.asarray(lv, dtype=int) - 1
     G = demodel.gram(xs)
     R = op.build_R_matrix(lv)
@@ -230,9 +245,11 @@ def run_combi(case, res):
     lmax = lmin + rng.choice([1, 2, 3]) if d == 2 else lmin + rng.choice([1, 2])
     if d == 2 and rng.random() < 0.2:
         lmin, lmax = 1, 8      # component grids above the 200-point switch (255 x 1)
+    elif d == 2 and rng.random() < 0.2:
+        lmin, lmax = 4, 5      # consecutive component grids (4,5),(5,4): equal point count above the switch
     X, labels, style = gen_data(rng, d, demodel.uniform_stripes([lmax] * d))
     lam = rng.choice([0.0, 1e-3, 0.1])
-    ml = rng.random() < 0.3
+    ml = rng.random() < 0.3 or (lmin, lmax) == (4, 5)
     cfg = {"path": "combi", "d": d, "lmin": lmin, "lmax": lmax, "M": len(X), "data": style, "lambda": lam, "masslumping": ml, "labels": labels is not None}
     res.sample = {"config": cfg}
     op = make_op(X, labels, d, masslumping=ml, lambd=lam)
@@ -251,6 +268,16 @@ def run_combi(case, res):
         al = np.asarray(op.surpluses[tuple(lv)], dtype=float)
         maxN = max(maxN, len(al))
         exp += g.coefficient * demodel.interpolate(xs, al, P)
+        if len(al) <= 500:
+            Gm = demodel.gram(xs)
+            sgn = np.ones(len(X)) if labels is None else labels
+            bref = (demodel.hat_matrix(xs, X) * sgn[:, None]).sum(axis=0) / len(X)
+            x0 = bref / Gm[0, 0] if ml else np.linalg.solve(Gm + lam * np.eye(len(al)), bref)
+            ref = demodel.normalise(x0, None, labels is not None, weighted=False)
+            cnd = 1.0 if ml else float(np.linalg.cond(Gm + lam * np.eye(len(al))))
+            res.close("combi_component_surpluses", al, ref, 1e-12 * max(1.0, float(np.max(np.abs(ref)))) * max(1.0, cnd),
+                      "C16_combi_component_surpluses:" + ("large" if len(al) >= 200 else "small"),
+                      "surpluses of component grid %s inside a combination run differ from the normalised solution of its own system" % (lv,), cfg)
     sc = max(1.0, float(np.max(np.abs(exp)))) * sum(abs(g.coefficient) for g in combi.scheme)
     res.close("combi_interpolant", got, exp, 1e-11 * sc, "C16_combi_interpolant:" + ("large" if maxN >= 200 else "small"),
               "combi(points) differs from the coefficient-weighted hat interpolants of the returned surpluses", cfg)
